@@ -9,6 +9,8 @@ Inductive xcase :=
 (* five-level family: configuration, whether the constructor accepted it, whether remaining_capacity() is observed,
    the history, and per operation: result, used_memory, fragment_size[, remaining_capacity] *)
 | X5 (c : fcfg) (impl_new rem : bool) (ops : list op5) (expect : list (option Z))
+(* level 4, ThreadLocalPool: configuration, arena_size, constructor result, history, offsets *)
+| X5T (c : fcfg) (arena : N) (impl_new : bool) (ops : list op5) (expect : list (option Z))
 (* ThreadLocalMemoryPool: TLS_SIZE_CLASSES as read from the source, configuration, history, and per allocation the
    arena index (in order of first appearance) and the offset inside the arena *)
 | XTl (impl_classes : list N) (c : tlcfg) (ops : list tlop) (expect : list (option Z))
@@ -27,6 +29,10 @@ Definition xok (x : xcase) : bool :=
   | X5 c impl_new rem ops e =>
       if new_ok5 Fixed c
       then (if impl_new then eqb_loz (observe5 Fixed c rem ops) e else 1073741824 <? f_cap c)   (* a huge arena may fail to allocate *)
+      else negb impl_new
+  | X5T c arena impl_new ops e =>
+      if new_ok5 Fixed c
+      then (if impl_new then eqb_loz (observe5t c arena ops) e else 1073741824 <? f_cap c)
       else negb impl_new
   | XTl ic c ops e => eqb_ln' ic TLS_SIZE_CLASSES && eqb_loz (tl_observe c ops) e
   | XTi c ops e => eqb_loz (t_observe c ops) e
